@@ -101,6 +101,12 @@ class ParseRoles:
         def keep(g):
             if g.id in role_ids:
                 return True
+            # private *higher-order* helpers of the parser (`eat(pred)`, `at(pred)`, `separator_unless(closer)`): what they
+            # test / consume depends on the predicate they are handed, so they are read at their call sites
+            if not g.is_closure and not g.j.get('reachable', g.is_pub) and any(
+                    re.search(r'Fn(Mut|Once)?\(', g.locals[k]['ty']) or 'closure@' in g.locals[k]['ty'] or re.match(r'^(for<[^>]*> )?(unsafe )?fn\(', g.locals[k]['ty'])
+                    or re.match(r'^(&(mut )?)?[A-Z]\w{0,3}$', g.locals[k]['ty']) for k in range(1, g.arg_count + 1)):
+                return False
             if g.id in pids and (tag == 'shallow' or len(self.prog.callers.get(g.id, ())) != 1):
                 # 'deep' opens a parse body only into its single caller (an extracted helper); shared ones stay calls
                 return True
